@@ -99,6 +99,6 @@ Proof. vm_compute. reflexivity. Qed.
 
 (* without the side condition the order of [p]-tokens can change *)
 Example bubble_can_reorder :
-  bubble_cl [KCtor KTailComment] [KCtor KKeyword] [TKeyword [1]; TTailComment [[2]]]
-  = Some [TTailComment [[2]]; TKeyword [1]].
+  bubble_cl [KCtor KTailComment] [KCtor KKeyword] [TKeyword [1%N]; TTailComment [[2%N]]]
+  = Some [TTailComment [[2%N]]; TKeyword [1%N]].
 Proof. vm_compute. reflexivity. Qed.
